@@ -33,6 +33,12 @@ func Main(m *testing.M, rec *evidence.Recorder) {
 // Verdict is deferred by every test leg: a failed leg prints the VIOLATION line of the contract.
 func Verdict(t *testing.T, rec *evidence.Recorder, leg string) {
 	if t.Failed() {
+		if !engine.ReplayWritten(rec.Property, leg) {
+			// the leg failed without reporting a violation (a HARNESS-ERROR: no leader, dial failure, ...):
+			// inconclusive, never a verdict
+			fmt.Printf("HARNESS-ERROR: leg %s of %s failed without a violation report (inconclusive)\n", leg, rec.Property)
+			return
+		}
 		rec.Violation()
 		fmt.Printf("VIOLATION property=%s replay=%s/replays/%s-%s.json\n", rec.Property, evidence.Root(), rec.Property, leg)
 	}
